@@ -71,6 +71,8 @@ FILTER_GRID = [
     (3, 2, None, None), (3, 1, (0.3, 0.7), None), (3, 2, (0.3, 0.7), ["AC"]), (3, None, (0.3, 0.7), ["GAT"]),
     (3, 2, (0.0, 1.0), ["CG", "TTA"]), (4, 2, (0.25, 0.75), None), (4, 3, (0.5, 0.5), None),
     (4, 2, (0.4, 0.6), ["GCT"]), (4, 1, None, ["ACGT"]), (4, 3, (0.25, 0.5), ["AG", "TGC"]),
+    # configurations that keep homopolymer k-mers (vertex 0 = AA..A is a valid vertex)
+    (2, None, (0.0, 0.5), None), (3, None, (0.0, 0.34), None), (3, None, (0.0, 0.67), ["CC"]), (4, None, (0.0, 0.25), None),
 ]
 
 
